@@ -15,13 +15,13 @@ Section TracedProofs.
   Notation tree := (Engine.tree S In Out Lay).
   Notation ev_t := (event S In).
 
-  Definition strip3 {A B C} (x : option (A * B * C)) : option (A * B) := option_map fst x.
+  Definition forget_events {A B C} (x : option (A * B * C)) : option (A * B) := option_map fst x.
 
   Lemma run_memo_traced_fst :
     forall (evt : tree -> In -> option (Out * tree * list ev_t)) (ev : tree -> In -> option (Out * tree)),
-      (forall t i, strip3 (evt t i) = ev t i) ->
+      (forall t i, forget_events (evt t i) = ev t i) ->
       forall a kids,
-        strip3 (run_memo_tr S In Out Lay evt kids a) = run_memo S In Out Lay ev kids a.
+        forget_events (run_memo_tr S In Out Lay evt kids a) = run_memo S In Out Lay ev kids a.
   Proof.
     intros evt ev Hev. induction a as [o | c i k IH | c l k IH]; intros kids; simpl.
     - reflexivity.
@@ -36,7 +36,7 @@ Section TracedProofs.
 
   Theorem memo_traced_fst :
     forall fuel t i,
-      strip3 (memo_tr S In Out Lay mode in_eqb is_none hidden_out zero_lay algo fuel t i)
+      forget_events (memo_tr S In Out Lay mode in_eqb is_none hidden_out zero_lay algo fuel t i)
       = memo S In Out Lay mode in_eqb is_none hidden_out zero_lay algo fuel t i.
   Proof.
     induction fuel as [|f IH]; intros t i; [reflexivity|].
